@@ -2805,7 +2805,9 @@ class Executor(Exec, ExprMixin, StmtMixin, CallMixin):
         if k == 'None': return NONE
         if k == 'Func': return FuncV(get_func(*ty.args))
         if k == 'New':
-            return st.new_cell(Rec(ty.args[0], Module.get(self.reg.classes[ty.args[0]].file)))
+            rec = Rec(ty.args[0], Module.get(self.reg.classes[ty.args[0]].file))
+            for fn_, fty_ in getattr(ty, 'init_fields', {}).items(): rec.fields[fn_] = self.make_input('%s.%s' % (nm, fn_), fty_, st)
+            return st.new_cell(rec)
         if k in ('Dict', 'ODict'):
             kty, vty = ty.args
             d_ = SymDict(z3.Const(nm + '.has', z3.ArraySort(kty.sort(), BoolS)), z3.Const(nm + '.get', z3.ArraySort(kty.sort(), vty.sort())), kty, vty,
